@@ -311,6 +311,52 @@ theorem out_encloses_every_pixel_partial (c : Captured) (mode : ResMode) (tight 
     out_contains_bbox_up_to_tol c mode tight anchor tol rnd g ht (by linarith) (by linarith) h
   refine ⟨by linarith, by linarith, by linarith, by linarith⟩
 
+theorem lin_range (a x n : Rat) (h0 : 0 ≤ x) (hn : x ≤ n) :
+    (0 ≤ a * x ∧ a * x ≤ a * n) ∨ (a * x ≤ 0 ∧ a * n ≤ a * x) := by
+  rcases le_total 0 a with ha | ha
+  · left
+    exact ⟨mul_nonneg ha h0, mul_le_mul_of_nonneg_left hn ha⟩
+  · right
+    exact ⟨mul_nonpos_of_nonpos_of_nonneg ha h0, mul_le_mul_of_nonpos_left hn ha⟩
+
+/-- an affine image of the pixel rectangle lies inside every box that contains its four corners -/
+theorem rect_in_bbox (A : Aff) (nx ny : Nat) (b : BBox) (hc : ∀ p ∈ extentCorners A nx ny, b.contains p)
+    (x y : Rat) (hx : 0 ≤ x ∧ x ≤ nx) (hy : 0 ≤ y ∧ y ≤ ny) : b.contains (A.apply (x, y)) := by
+  have h00 := hc (A.apply (0, 0)) (by simp [extentCorners])
+  have h10 := hc (A.apply ((nx : Rat), 0)) (by simp [extentCorners])
+  have h11 := hc (A.apply ((nx : Rat), (ny : Rat))) (by simp [extentCorners])
+  have h01 := hc (A.apply (0, (ny : Rat))) (by simp [extentCorners])
+  simp only [BBox.contains, Aff.apply] at h00 h10 h11 h01 ⊢
+  simp only [mul_zero, add_zero, zero_add] at h00 h10 h11 h01
+  have ax := lin_range A.a x nx hx.1 hx.2
+  have by_ := lin_range A.b y ny hy.1 hy.2
+  have dx := lin_range A.d x nx hx.1 hx.2
+  have ey := lin_range A.e y ny hy.1 hy.2
+  refine ⟨?_, ?_, ?_, ?_⟩
+  · rcases ax with ⟨p1, p2⟩ | ⟨p1, p2⟩ <;> rcases by_ with ⟨q1, q2⟩ | ⟨q1, q2⟩ <;> linarith
+  · rcases ax with ⟨p1, p2⟩ | ⟨p1, p2⟩ <;> rcases by_ with ⟨q1, q2⟩ | ⟨q1, q2⟩ <;> linarith
+  · rcases dx with ⟨p1, p2⟩ | ⟨p1, p2⟩ <;> rcases ey with ⟨q1, q2⟩ | ⟨q1, q2⟩ <;> linarith
+  · rcases dx with ⟨p1, p2⟩ | ⟨p1, p2⟩ <;> rcases ey with ⟨q1, q2⟩ | ⟨q1, q2⟩ <;> linarith
+
+/-- **out_encloses_every_pixel_linear** — the full enclosure claim whenever the change of coordinates
+between source and destination is affine (in particular: the destination CRS is the source's own, with a
+non-default anchor / resolution / shape-less request, or any rotated / mirrored / sheared source): if the
+footprint bounding box the code works from contains the **four corners** of the source extent — a fact
+about four points, checked exactly by the harness on the captured box of every same-CRS run — then the
+position of *every* point of *every* source pixel (all `0 ≤ x ≤ nx`, `0 ≤ y ≤ ny`, no sampling, no
+curvature hypothesis) lies inside the output grid up to `tol` of an output pixel. -/
+theorem out_encloses_every_pixel_linear (c : Captured) (mode : ResMode) (tight : Bool) (anchor : Anchor)
+    (tol : Rat) (rnd : Rounding) (g : Grid) (A : Aff) (nx ny : Nat) (ht : 0 ≤ tol)
+    (hc : ∀ p ∈ extentCorners A nx ny, c.bbox.contains p)
+    (h : computeOutput c mode .none tight anchor tol rnd = .ok (.grid g))
+    (x y : Rat) (hx : 0 ≤ x ∧ x ≤ nx) (hy : 0 ≤ y ∧ y ≤ ny) :
+    g.xLo - tol * rabs g.A.a ≤ (A.apply (x, y)).1 ∧ (A.apply (x, y)).1 ≤ g.xHi + tol * rabs g.A.a ∧
+    g.yLo - tol * rabs g.A.e ≤ (A.apply (x, y)).2 ∧ (A.apply (x, y)).2 ≤ g.yHi + tol * rabs g.A.e := by
+  have hin := rect_in_bbox A nx ny c.bbox hc x y hx hy
+  unfold BBox.contains at hin
+  generalize A.apply (x, y) = p at hin ⊢
+  exact out_encloses_every_pixel_partial c mode tight anchor tol rnd g p ht hin h
+
 /-- **utm_hemisphere** — for the WGS 84 UTM CRS of zone `z` found for the raster (EPSG `326zz`
 north, `327zz` south): `utm` keeps it, `utm-n` resolves to `326zz`, `utm-s` to `327zz` — same zone,
 requested hemisphere. -/
